@@ -39,6 +39,20 @@ CLAIMS = {
         note=TRUST + "Allocation failure is out of scope; glib accessors are assumed to return non-NULL for non-NULL containers.",
         design="DESIGN.md section 4, C13",
     ),
+    "C14": dict(
+        category="other",
+        technique="static analysis: who-appends rule over the configuration registries with membership-test scope (which containers the duplicate test scans), per-record key-comparison rule on the parser's list appends (incl. comparison helpers), exhaustive evaluation of range guards over all byte values, exact-string-comparison lint, container agreement and count/fill agreement of the enumeration getters",
+        text=("Decides the structural part of the rejection clauses and of the getters, not the biconditional: every append to a global registry (boards, trains, points, signals, "
+              "peripherals, segments, reversers) lies behind negative membership tests on the keys the statement names, and the test on a DCC address looks through trains and both "
+              "kinds of DCC accessories, the test on a point/signal id through both kinds of points/signals; every per-board / per-train list append is accompanied by a comparison "
+              "of each named key (number, port, address, CV, aspect id/value, function id/bit) with the existing entries whose match raises the error result; the guards on function "
+              "bits and speed steps accept exactly 0..31 and {14, 28, 126}; ids are matched with exact string comparison only; in the enumeration getters the containers whose "
+              "length sizes the result are the containers walked, and two-pass getters count and fill under the same nesting and tests. Not decided: that every well-formed "
+              "configuration is accepted, how scalars are converted from text (number formats), calibration length, cross-file board consistency beyond the lookup, and equality "
+              "of getter output with the declared values."),
+        note=TRUST + "The key lists per record type and the documented ranges are transcribed from the property statement (vf/props/c14.py LOCAL_KEYS / REG_KEYS / RANGES).",
+        design="DESIGN.md section 4, C14",
+    ),
     "C08": dict(
         category="other",
         technique="static analysis: who-may-write on the derived fields, per-iteration must-assign and guard-independence of the derivation, must-follow path rule (mutation -> derivation before unlock), path-sensitive walk with constant propagation for 'marked free => list emptied' incl. helper summaries",
@@ -239,10 +253,7 @@ for _k, (_t, _q) in ADDED.items():
     CLAIMS[_k]["text"] = CLAIMS[_k]["text"] + _t
     CLAIMS[_k]["technique"] = CLAIMS[_k]["technique"] + _q
 
-NOT_APPLICABLE = {
-    "C14": ("Biconditional over all configurations plus value equality between YAML content and getter output: no clause is decided by program "
-            "shape alone. Structural neighbours (error propagation, parser range checks tied to memory safety, crash freedom of rejection paths) are hosted under C13/C09 and are not a claim on C14."),
-}
+NOT_APPLICABLE = {}
 
 PENDING = "check not built yet in this session (planned: DESIGN.md section 4); not claimed until its driver exists"
 
